@@ -4,16 +4,19 @@ import Cell2v.Model.Modules
 Model driver for C11.
 
 ops
-  reset n=<n> app=<0|1> kind=<gen|neg|shipped> start=<s0,s1,..> stop=<s0,s1,..> [name=..]
+  reset n=<n> app=<0|1|2> kind=<gen|neg|shipped> start=<s0,s1,..> stop=<s0,s1,..> [cbS=<none|stop|gostop>] [cbX=<none|start|stop>] [name=..]
+        app: 0 plain ModList, 1 baseapp.App, 2 node/app.App (StartNode / StopNode through a launch mode)
+        cbS / cbX: what the start- / stop-completion callback does when invoked: issue Stop (directly, or on
+        another goroutine that it waits for) / Start — logged as RX / RS, followed by what that call did
         scripts: what module i does synchronously inside Start / Stop, a string over
         T (next(true)), F (next(false)), ! (panic); empty = completes later (see `fire`)
-  begin ph=<S|X>                 app=1: baseapp.App.Start / Stop;  app=0: ModList.Start / Stop
+  begin ph=<S|X>                 app=1: App.Start / Stop;  app=2: StartNode / StopNode;  app=0: ModList.Start / Stop
   fire ph=<S|X> i=<i> b=<T|F>    module i invokes the `next` it was handed in that phase (later, other goroutine)
 observation: the log segment produced by the op, tokens
   S<i> X<i>  Start/Stop of module i entered      c<i><b> d<i><b>  module i calls next(b) (start / stop phase)
   p<i> q<i>  module i panics (recovered by ModList)   fs<b> fx<b>  finish callback of the start / stop phase
   `-` nothing happened, `noop` the module holds no `next` of that phase,
-  `over` (app=1 only) the stop phase has reported success before: the log of an App case ends with its first fxT
+  `over` (app>=1 only) the stop phase has reported success twice: the log of an App case ends with its second fxT
 
 `modeld_c11 model`: op line in, predicted observation out (uses `App.step` of the model; a plain
 ModList is an App whose guard is open).  `modeld_c11 spec`: `op<TAB>obs` in, `ok` / `VIOLATION <sig> ..`
@@ -39,13 +42,19 @@ def phaseOf (ws : List String) : Option Bool :=
 
 structure Case where
   n : Nat := 0
-  isApp : Bool := false
+  isApp : Bool := false      -- app=1 (baseapp.App) or app=2 (node/app.App.StartNode/StopNode): guarded
   app : App := App.init 0
   startS : List (List Char) := []
   stopS : List (List Char) := []
   hasS : List Nat := []      -- modules holding the start phase's `next`
   hasX : List Nat := []
-  over : Bool := false       -- app=1: the stop phase reported success (App.Cleanup ran); the case is over
+  cbS : String := "none"     -- what the start-finish callback does: none | stop | gostop
+  cbX : String := "none"     -- what the stop-finish callback does: none | start | stop
+  fxT : Nat := 0             -- app: number of success reports of the stop phase
+  over : Bool := false       -- app: the stop phase reported success twice; the case is over
+
+/-- (phase, module, rest of its synchronous script) -/
+abbrev Frame := Bool × Nat × List Char
 
 def Case.script (c : Case) (ph : Bool) (i : Nat) : List Char :=
   (if ph then c.startS else c.stopS).getD i []
@@ -56,35 +65,57 @@ def tokOfEv (ph : Bool) : Ev → String
   | .finish b => (if ph then "fs" else "fx") ++ bch b
   | .oob => "panic"
 
-/-- log the events of one model step; entered modules get the closure and a script frame -/
-def absorb (c : Case) (evs : List AEv) : Case × List String × List (Nat × List Char) :=
-  evs.foldl (fun (acc : Case × List String × List (Nat × List Char)) e =>
-    let (c, log, frames) := acc
+/-- App.Start/Stop (guarded) or ModList.Start/Stop (a plain ModList is an App whose guard is
+open); `none` = refused -/
+def beginPhase (c : Case) (ph : Bool) : Option (Case × List AEv) :=
+  let a := if c.isApp then c.app else { c.app with st := if ph then .prepared else .normal }
+  let r := a.step (if ph then .start else .stop)
+  if r.2.isEmpty then none
+  else
+    let c := if ph then { c with hasS := [] } else { c with hasX := [] }
+    some ({ c with app := r.1 }, r.2)
+
+/-- log the events of model steps in order.  An entered module gets the closure and a script
+frame.  A `finish` invokes the scripted completion callback *with the state the model has after
+the step* (the wrapper sets the state before calling `finish`): the callback may issue Stop /
+Start itself (tokens RX / RS), whose events follow inline.  For an App the log of a case ends
+with the second `fxT` (the second `Cleanup` closes a closed channel; outside the property). -/
+def absorb : Nat → Case → List AEv → List String → List Frame → Case × List String × List Frame
+  | 0, c, _, log, frames => (c, log ++ ["fuel"], frames)
+  | _ + 1, c, [], log, frames => (c, log, frames)
+  | fuel + 1, c, e :: es, log, frames =>
     match e with
-    | .begin _ => (c, log, frames)
+    | .begin _ => absorb fuel c es log frames
     | .ev ph (.enter i) =>
       let c := if ph then { c with hasS := i :: c.hasS } else { c with hasX := i :: c.hasX }
-      (c, log ++ [tokOfEv ph (.enter i)], frames ++ [(i, c.script ph i)])
-    | .ev ph x => (c, log ++ [tokOfEv ph x], frames)) (c, [], [])
+      absorb fuel c es (log ++ [tokOfEv ph (.enter i)]) (frames ++ [(ph, i, c.script ph i)])
+    | .ev ph (.finish b) =>
+      let log := log ++ [tokOfEv ph (.finish b)]
+      let stopOK := c.isApp && !ph && b
+      let c := if stopOK then { c with fxT := c.fxT + 1 } else c
+      if stopOK && c.fxT ≥ 2 then ({ c with over := true }, log, [])
+      else
+        let cb := if ph then c.cbS else c.cbX
+        if cb == "none" then absorb fuel c es log frames
+        else
+          let tgt := cb == "start"
+          let log := log ++ [if tgt then "RS" else "RX"]
+          match beginPhase c tgt with
+          | none => absorb fuel c es log frames
+          | some (c', evs') => absorb fuel c' (evs' ++ es) log frames
+    | .ev ph x => absorb fuel c es (log ++ [tokOfEv ph x]) frames
 
-/-- did the App's stop phase report success in these events? -/
-def stopped (c : Case) (evs : List AEv) : Bool := c.isApp && evs.contains (.ev false (.finish true))
-
-/-- run the synchronous scripts depth-first (a nested Start runs inside the caller's `next`).
-For an App the log of a case ends with the first `fxT` (then `App.Cleanup` has stopped the run
-service; what a further, necessarily undisciplined, completion does to a cleaned-up App is
-outside the property and is not compared). -/
-def drain : Nat → Case → Bool → List (Nat × List Char) → List String → Case × List String
-  | 0, c, _, _, log => (c, log ++ ["fuel"])
-  | _ + 1, c, _, [], log => (c, log)
-  | fuel + 1, c, ph, (_, []) :: fs, log => drain fuel c ph fs log
-  | fuel + 1, c, ph, (w, ch :: rest) :: fs, log =>
-    if ch == '!' then drain fuel c ph fs (log ++ [(if ph then "p" else "q") ++ toString w])
+/-- run the synchronous scripts depth-first (a nested Start runs inside the caller's `next`) -/
+def drain : Nat → Case → List Frame → List String → Case × List String
+  | 0, c, _, log => (c, log ++ ["fuel"])
+  | _ + 1, c, [], log => (c, log)
+  | fuel + 1, c, (_, _, []) :: fs, log => drain fuel c fs log
+  | fuel + 1, c, (ph, w, ch :: rest) :: fs, log =>
+    if ch == '!' then drain fuel c fs (log ++ [(if ph then "p" else "q") ++ toString w])
     else
       let r := c.app.step (.call ph w (ch == 'T'))
-      let (c', toks, frames) := absorb { c with app := r.1 } r.2
-      if stopped c r.2 then ({ c' with over := true }, log ++ toks)
-      else drain fuel c' ph (frames ++ (w, rest) :: fs) (log ++ toks)
+      let (c', log', frames) := absorb 1000 { c with app := r.1 } r.2 log []
+      if c'.over then (c', log') else drain fuel c' (frames ++ (ph, w, rest) :: fs) log'
 
 def showLog (log : List String) : String := if log.isEmpty then "-" else " ".intercalate log
 
@@ -94,22 +125,20 @@ def step (c : Case) (line : String) : Case × String :=
   | some "reset" =>
     match kvNat ws "n", kvNat ws "app" with
     | some n, some a =>
-      ({ n := n, isApp := a == 1, app := App.init n, startS := scriptsOf ws "start" n, stopS := scriptsOf ws "stop" n }, "ok")
+      ({ n := n, isApp := a ≥ 1, app := App.init n, startS := scriptsOf ws "start" n, stopS := scriptsOf ws "stop" n,
+         cbS := (kv ws "cbS").getD "none", cbX := (kv ws "cbX").getD "none" }, "ok")
     | _, _ => (c, "bad-op")
   | some "begin" =>
     match phaseOf ws with
     | none => (c, "bad-op")
     | some ph =>
-      -- a plain ModList has no guard: open it
-      let a := if c.isApp then c.app else { c.app with st := if ph then .prepared else .normal }
-      let r := a.step (if ph then .start else .stop)
-      if r.2.isEmpty then (c, "-")
-      else
-        let c := if ph then { c with hasS := [] } else { c with hasX := [] }
-        let (c', toks, frames) := absorb { c with app := r.1 } r.2
-        if stopped c r.2 then ({ c' with over := true }, showLog toks)
+      match beginPhase c ph with
+      | none => (c, "-")
+      | some (c, evs) =>
+        let (c', toks, frames) := absorb 1000 c evs [] []
+        if c'.over then (c', showLog toks)
         else
-          let (c'', log) := drain 100000 c' ph frames toks
+          let (c'', log) := drain 100000 c' frames toks
           (c'', showLog log)
   | some "fire" =>
     match phaseOf ws, kvNat ws "i", kv ws "b" with
@@ -117,7 +146,7 @@ def step (c : Case) (line : String) : Case × String :=
       if c.over then (c, "over")
       else if !((if ph then c.hasS else c.hasX).contains i) then (c, "noop")
       else
-        let (c', log) := drain 100000 c ph [(i, [if b == "T" then 'T' else 'F'])] []
+        let (c', log) := drain 100000 c [(ph, i, [if b == "T" then 'T' else 'F'])] []
         (c', showLog log)
     | _, _, _ => (c, "bad-op")
   | _ => (c, "bad-op")
@@ -168,6 +197,7 @@ def badAfterFailure (tr : List Ev) : Bool :=
 /-- why a disciplined log is not canonical (only used to name the violation) -/
 def classify (ph : Bool) (order : List Nat) (tr : List Ev) : String :=
   if (finishes tr).length > 1 then "C11/finish-twice"
+  else if afterFirstFailure tr == some [] then "C11/finish-missing"
   else if badAfterFailure tr then "C11/continues-after-failure"
   else if !(enters tr).isPrefixOf order then (if ph then "C11/start-order" else "C11/stop-order")
   else if (finishes tr).contains true && (enters tr != order || (calls tr).any fun c => !c.2) then "C11/wrong-outcome"
@@ -188,6 +218,40 @@ def checkPhase (s : Spec) (ph : Bool) (tr : List Ev) : Option String :=
       if canonB order tr then none else some (classify ph order tr)
     else none
 
+/-- does this token show that a phase of the given kind (true = start) was begun? -/
+def showsBegin (tgt : Bool) (t : String) : Bool :=
+  if tgt then t.startsWith "S" || t.startsWith "fs" else t.startsWith "X" || t.startsWith "fx"
+
+/-- sequential reading of the tokens of one op: phase events are appended to the phase logs; a
+callback marker RX / RS (Stop / Start issued from inside a completion callback) is checked
+against the state guard — in particular a Stop issued by the start-completion callback that was
+told `true` must be accepted — and starts a new phase instance when the call was accepted -/
+def procToks (s : Spec) (prev : String) : List String → Spec × Option String
+  | [] => (s, none)
+  | t :: rest =>
+    if t == "RX" || t == "RS" then
+      let tgt := t == "RS"
+      let accepted := match rest with
+        | n :: _ => showsBegin tgt n
+        | [] => false
+      let expected : Option Bool :=
+        if !s.isApp || s.broken then none
+        else if prev == "fsT" && !tgt then some true
+        else some false
+      let s' := if accepted then (if tgt then { s with trS := [], begunS := true } else { s with trX := [], begunX := true }) else s
+      match expected with
+      | some true => if accepted then procToks s' t rest else (s', some "C11/stop-dropped-in-start-callback")
+      | some false =>
+        if accepted then (s', some (if tgt then "C11/start-outside-prepared" else "C11/stop-outside-normal"))
+        else procToks s' t rest
+      | none => procToks s' t rest
+    else
+      let s' := match parseTok t with
+        | some (true, e) => { s with trS := s.trS ++ [e] }
+        | some (false, e) => { s with trX := s.trX ++ [e] }
+        | none => s
+      procToks s' t rest
+
 def specLine (s : Spec) (line : String) : Spec × String :=
   match line.splitOn "\t" with
   | [op, obs] =>
@@ -196,7 +260,7 @@ def specLine (s : Spec) (line : String) : Spec × String :=
     if obs.startsWith "panic" || toks.contains "blocked" then (s, "VIOLATION C11/harness-crash-or-blocked " ++ op ++ " => " ++ obs)
     else match ws.head? with
     | some "reset" =>
-      ({ n := (kvNat ws "n").getD 0, isApp := kvNat ws "app" == some 1, kind := (kv ws "kind").getD "" }, "ok")
+      ({ n := (kvNat ws "n").getD 0, isApp := (kvNat ws "app").getD 0 ≥ 1, kind := (kv ws "kind").getD "" }, "ok")
     | some h =>
       if h != "begin" && h != "fire" then (s, "ok")
       else
@@ -220,13 +284,13 @@ def specLine (s : Spec) (line : String) : Spec × String :=
             | some false => { s with trX := [], begunX := true }
             | none => s
           else s
-        let evs := toks.filterMap parseTok
-        let unknown := toks.any fun t => (parseTok t).isNone && !isPanicTok t && t != "-" && t != "noop" && t != "over" && t != "panic"
-        let s := { s with trS := s.trS ++ (evs.filter (·.1)).map (·.2), trX := s.trX ++ (evs.filter (!·.1)).map (·.2) }
+        let unknown := toks.any fun t => (parseTok t).isNone && !isPanicTok t && t != "-" && t != "noop" && t != "over" && t != "panic" && t != "RX" && t != "RS"
+        let (s, cbViolation) := procToks s "" toks
         let nowBroken := s.broken || !disciplinedB s.trS || !disciplinedB s.trX
-        let r := match guard with
-          | some g => some g
-          | none =>
+        let r := match guard, cbViolation with
+          | some g, _ => some g
+          | none, some v => some v
+          | none, none =>
             if toks.contains "panic" && !nowBroken then some "C11/panic-escapes"
             else if unknown then some "C11/unreadable-log"
             else match (if s.begunS then checkPhase s true s.trS else none) with
